@@ -275,7 +275,8 @@ impl EditState {
     /// This function will return an error if .
     pub fn make_layer_transparent(&mut self) -> EngineResult<()> {
         let _undo = self.begin_atomic_undo(fl!(crate::LANGUAGE_LOADER, "undo-make_transparent"));
-        let layer_idx = self.current_layer;
+        // the layer that is edited below (the current layer index may point behind the stack, e.g. after clear_layer)
+        let layer_idx = self.get_current_layer()?;
         if let Some(layer) = self.get_cur_layer_mut() {
             let area = crate::Rectangle {
                 start: Position::new(0, 0),
